@@ -218,6 +218,8 @@ impl TokenBucketBudget {
     /// replenished via `deposit()` calls on successful requests.
     pub fn new(_tokens_per_second: f64, max_tokens: usize, initial_tokens: usize) -> Self {
         const SCALE: u64 = 1000;
+        // The bucket never holds more than its burst capacity, not even at the start
+        let initial_tokens = initial_tokens.min(max_tokens);
         Self {
             tokens: AtomicU64::new((initial_tokens as u64) * SCALE),
             max_tokens: (max_tokens as u64) * SCALE,
